@@ -135,7 +135,20 @@ func (h *Handle) WriteAt(p []byte, off int64) (int, error) {
 		case h.arm.Active && !h.arm.fired:
 			switch h.arm.Kind {
 			case "fail":
-				if h.arm.Budget < accept {
+				// Faults are positions in the byte stream: if the disk-full point
+				// comes strictly BEFORE the armed failure point, the disk-full rule
+				// below decides this call and the armed fault has not been reached.
+				capFirst := false
+				if d.Capacity >= 0 {
+					room := d.Capacity - off
+					if room < 0 {
+						room = 0
+					}
+					capFirst = room < h.arm.Budget && room < accept
+				}
+				if capFirst {
+					// handled by the capacity rule; the budget shrinks by what it accepts
+				} else if h.arm.Budget < accept {
 					accept, err = h.arm.Budget, h.arm.Err
 					h.arm.fired = true
 					if accept == 0 {
@@ -177,6 +190,9 @@ func (h *Handle) WriteAt(p []byte, off int64) (int, error) {
 					err = ErrNoSpace
 				}
 				d.Fired["disk.full"]++
+				if h.arm.Active && !h.arm.fired && h.arm.Kind == "fail" {
+					h.arm.Budget -= accept
+				}
 			}
 		}
 		if !d.Crashed && d.CrashAfter >= 0 && d.Accepted+accept >= d.CrashAfter {
